@@ -91,6 +91,10 @@ class Counters(EngineBase):
             # a CPU went offline earlier: its accumulated time stays in the
             # "cpu" total line only
             b["cpu_offline"] = [rng.randrange(0, 5000) for _ in range(10)]
+        if rng.random() < 0.1:
+            # /proc/stat cannot be read while psutil is imported: no
+            # import-time sample, the field layout is learnt later
+            b["import_deny"] = {"/proc/stat": 13}
         return b
 
     # ==================================================================
@@ -496,6 +500,10 @@ class Counters(EngineBase):
                 ("cpu_percent", True): {0: table_of(imp)},
                 ("cpu_times_percent", False): {0: table_of(imp)},
                 ("cpu_times_percent", True): {0: table_of(imp)}}
+        if boot.get("import_deny"):
+            # /proc/stat was unreadable during the import: no sample yet
+            last = {key_: {} for key_ in last}
+            probes["imported_without_cpu_sample"] = 1
         handles = {}
         k.begin_op(0)
         for i, p in enumerate(plan["world"]["procs"]):
